@@ -100,6 +100,18 @@ def misbehaving(seed, quick):
             for after in ([0, 3, 7, 20, 300, 520, 530, 540, 1100] if quick else list(range(0, 40)) + list(range(500, 560)) + [1100, 1600]):
                 add('spi%d' % after, kind, crc, [], [O('spierr', after=after), O('write', blk=1, n=2)])
                 add('spir%d' % after, kind, crc, [], [O('spierr', after=after), O('read', blk=1, n=2)])
+            # SPI failure on a token byte (start block / stop token) and right after the n-th command / block
+            for nth in range(1, 5):
+                add('spitokm%d' % nth, kind, crc, [dict(when='tok', nth=nth, what='spi')], [O('write', blk=1, n=3)])
+            add('spitok1', kind, crc, [dict(when='tok', nth=1, what='spi')], [O('write', blk=1, n=1)])
+            for nth in (range(1, 6) if quick else range(1, 12)):
+                add('spicmd%d' % nth, kind, crc, [dict(when='cmd', nth=nth, what='spi')], [O('write', blk=1, n=2), O('read', blk=1, n=2)], pre=[])
+            for nth in (1, 2, 3):
+                add('spiwr%d' % nth, kind, crc, [dict(when='write', nth=nth, what='spi')], [O('write', blk=1, n=3)])
+                add('spird%d' % nth, kind, crc, [dict(when='data', nth=nth + 1, what='spi')], [O('read', blk=1, n=3)])
+            # SPI failure among the clock bytes that flush the bus after a reset that got no answer
+            for after in ([10001, 10002, 10100, 10256, 10257] if quick else [10000 + k for k in range(0, 262, 3)]):
+                add('spiflush%d' % after, kind, crc, [dict(when='cmd', nth=1, what='silent')], [O('spierr', after=after), O('card_type')], pre=[])
             for after in ([0, 2, 6, 9, 100, 520, 1050] if quick else list(range(0, 30)) + list(range(510, 540)) + [1050, 1570]):
                 for val in (255, 0):
                     tail = [O('read', blk=2, n=1), O('revive'), O('mark_uninit'), O('read', blk=2, n=1), O('write', blk=2, n=1), O('read', blk=2, n=1)]
